@@ -101,5 +101,7 @@ class BaseScheduler(BaseSeedable, ABC):
     def session(self) -> Generator[None, None, None]:
         """Start the session of the scheduler with a context manager."""
         self.start_session()
-        yield
-        self.end_session()
+        try:
+            yield
+        finally:
+            self.end_session()
